@@ -214,3 +214,41 @@ def load(tier='quick', want_tus=None):
     db.stats = {'tus': len(tus), 'cache_hits': hits, 'functions': len(db.fns), 'patterns': len(db.patterns),
                 'extract_s': round(time.time() - t0, 2)}
     return db
+
+
+# Function patterns that cannot have an analysed instance, each with its reason.
+EXEMPT_PATTERNS = [
+    ('nop/base/encoding.h', 'std::is_same<T, std::size_t>::value && IsUnique',
+     'Encoding<size_t> for platforms where size_t is a distinct type from uint32_t/uint64_t: not instantiable on LP64'),
+    ('nop/rpc/interface.h', 'nop::InterfaceMethod::Invoke',
+     'the return-less Invoke(Sender*, Return*, ...) overload passes Return* where Status<Return>* is required: uninstantiable dead code'),
+    ('nop/types/optional.h', 'std::is_trivially_destructible<U>::value, void>::type>::State<',
+     'initializer-list in-place constructor of the trivially destructible State: no trivially destructible T is constructible '
+     'from an initializer_list in the probes; the non-trivial twin is covered'),
+    ('nop/utility/sip_hash.h', 'nop::BlockReader::BlockReader<T>', 'array constructor template: instances are reported at the '
+     'class template location'),
+]
+
+
+def uncovered(db, prefixes):
+    """dependent function patterns under the given file prefixes without any analysed instance"""
+    out = []
+    for (file, line), q in sorted(db.patterns.items()):
+        if not any(file.startswith(p) for p in prefixes):
+            continue
+        if (file, line) in db.by_pat:
+            continue
+        if any(file == f and sub in q for f, sub, _ in EXEMPT_PATTERNS):
+            continue
+        out.append((file, line, q))
+    return out
+
+
+def gate(chk, db, prefixes):
+    """coverage gating: a pattern a rule needs but no probe instantiates is analysis-broken, never a silent pass"""
+    miss = uncovered(db, prefixes)
+    for file, line, q in miss:
+        chk.unanalysable('coverage', '%s:%d' % (file, line), 'function pattern %s has no analysed instance (extend /verif/probes)' % q[:120])
+    chk.extra['patterns_required'] = sum(1 for (f, l) in db.patterns if any(f.startswith(p) for p in prefixes))
+    chk.extra['patterns_uncovered'] = len(miss)
+    return not miss
